@@ -294,7 +294,12 @@ def replay_key(ob):
 
 def replay(ob):
     from props import C10_native
-    return C10_native.replay_c16()
+    r = C10_native.cxx_replay()
+    if r.get("reproduced"):
+        return r
+    r2 = C10_native.replay_c16()
+    r2["cxx_harness"] = r.get("note", "no failing input on the compiled C++")
+    return r2
 
 
 def replay_file(rp):
